@@ -105,7 +105,7 @@ theorem T09_extend_value_rejected (st : ParseState) (p1 p2 : List Bytes) (k key 
   | none => rfl
   | some st' =>
     obtain ⟨c, hd, _⟩ := onKeyval_some _ _ _ _ _ h
-    rw [descend_append] at hd
+    have hd := descend_append_some _ _ _ _ _ _ hd
     obtain ⟨u', hf, _⟩ := descend_spec _ _ _ _ _ hd
     simp only [target, hu, Option.getD_some] at hf
     rw [descend_cons_value u x k p2 true _ hk] at hf
@@ -114,6 +114,66 @@ theorem T09_extend_value_rejected (st : ParseState) (p1 p2 : List Bytes) (k key 
 /-- `a.x = 1` then `a.x.y = 2` is rejected -/
 example : (exSt1.bind fun st => onKeyval st [ka, kx] ky (.int 2)).isSome = false := by decide
 
+
+/-- a dotted key can never add anything below an element of an array of tables: if the path reaches
+    an array of tables and continues, the statement is rejected -/
+theorem T09_dotted_through_aot_rejected (st : ParseState) (p1 p2 : List Bytes) (k key : Bytes) (v : Val)
+    (u : Tbl) (ts : List Tbl)
+    (hu : lookupTbl st.current p1 = some u) (hk : alookup k u.items = some (.aot ts)) (hp2 : p2 ≠ []) :
+    onKeyval st (p1 ++ k :: p2) key v = none := by
+  cases h : onKeyval st (p1 ++ k :: p2) key v with
+  | none => rfl
+  | some st' =>
+    obtain ⟨c, hd, _⟩ := onKeyval_some _ _ _ _ _ h
+    have hd := descend_append_some _ _ _ _ _ _ hd
+    obtain ⟨u', hf, _⟩ := descend_spec _ _ _ _ _ hd
+    simp only [target, hu, Option.getD_some] at hf
+    rcases descend_cons_some u u' k p2 true _ hf with ⟨sub, sub', he, _, _, _⟩ | ⟨init, l, l', _, hca, _, _⟩
+    · simp [hk] at he
+    · cases p2 with
+      | nil => exact absurd rfl hp2
+      | cons a r => simp at hca
+
+/-- the single-segment case: a dotted key whose table part *is* an array of tables is rejected too
+    (by the mixed-table-types check against the last element, which is never a dotted table;
+    an empty array is rejected outright) -/
+theorem T09_dotted_onto_aot_rejected (st : ParseState) (p1 : List Bytes) (k key : Bytes) (v : Val)
+    (u : Tbl) (ts : List Tbl)
+    (hu : lookupTbl st.current p1 = some u) (hk : alookup k u.items = some (.aot ts))
+    (hlast : ∀ l, ts.getLast? = some l → l.dotted = false) :
+    onKeyval st (p1 ++ [k]) key v = none := by
+  cases h : onKeyval st (p1 ++ [k]) key v with
+  | none => rfl
+  | some st' =>
+    obtain ⟨c, hd, _⟩ := onKeyval_some _ _ _ _ _ h
+    have hd := descend_append_some _ _ _ _ _ _ hd
+    obtain ⟨u', hf, _⟩ := descend_spec _ _ _ _ _ hd
+    simp only [target, hu, Option.getD_some] at hf
+    rcases descend_cons_some u u' k [] true _ hf with ⟨sub, sub', he, _, _, _⟩ | ⟨init, l, l', ha, _, hs, _⟩
+    · simp [hk] at he
+    · rw [hk] at ha; injection ha with ha; injection ha with ha; subst ha
+      have hl := hlast l (by simp)
+      simp only [descend] at hs
+      obtain ⟨_, _, hdot⟩ := kvF_some _ _ _ _ _ hs
+      rw [hl] at hdot
+      simp at hdot
+
+/-- after `[[a.b]]`, `x = 1`, `[a]` the open section `a` holds the array of tables `b` (one element,
+    not dotted); `b.c.y = 2` and `b.y = 2` are both rejected, `c.y = 2` is accepted -/
+def exAot : Option ParseState := run {} [.arr [ka, kb], .kv [] kx (.int 1), .std [ka]]
+
+def isAotWith (i : Option Item) (p : Tbl → Bool) : Bool :=
+  match i with
+  | some (.aot ts) => match ts.getLast? with
+    | some l => p l
+    | none => false
+  | _ => false
+
+example : exAot.isSome = true ∧
+    (exAot.bind fun st => some (isAotWith (alookup kb st.current.items) fun l => !l.dotted)) = some true ∧
+    (exAot.bind fun st => onKeyval st [kb, [99]] ky (.int 2)).isSome = false ∧
+    (exAot.bind fun st => onKeyval st [kb] ky (.int 2)).isSome = false ∧
+    (exAot.bind fun st => onKeyval st [[99]] ky (.int 2)).isSome = true := by decide
 
 /-! ## headers: `finalize_table` -/
 
